@@ -1076,6 +1076,16 @@ theorem foldl_minStep_isExact : ∀ (xs : List Num) (acc : Num),
   | x :: xs, acc => by
     rw [List.foldl_cons, foldl_minStep_isExact xs, minStep_isExact, List.all_cons, Bool.and_assoc]
 
+theorem foldl_maxStep_inexact_iff (xs : List Num) (acc : Num) :
+    (xs.foldl maxStep acc).isExact = false ↔ ∃ y ∈ acc :: xs, y.isExact = false := by
+  rw [← Bool.not_eq_true, foldl_maxStep_isExact]
+  rcases Bool.eq_false_or_eq_true acc.isExact with h | h <;> simp [h]
+
+theorem foldl_minStep_inexact_iff (xs : List Num) (acc : Num) :
+    (xs.foldl minStep acc).isExact = false ↔ ∃ y ∈ acc :: xs, y.isExact = false := by
+  rw [← Bool.not_eq_true, foldl_minStep_isExact]
+  rcases Bool.eq_false_or_eq_true acc.isExact with h | h <;> simp [h]
+
 /-- one step on exact operands: the result is one of the two and dominates both -/
 theorem maxStep_spec {a b : Num} (ea : a.isExact = true) (eb : b.isExact = true)
     (pa : a.PosDen) (pb : b.PosDen) :
